@@ -18,9 +18,35 @@ Proof.
     destruct (List.length (nodupn (a :: anys)) =? 1); reflexivity.
 Qed.
 
-(* pyanalyze/signature.py: OverloadedSignature.check_call *)
-Lemma pin_check_call_ok : pin_check_call = "9c17f729297ee7fb5c6e"%string.
-Proof. reflexivity. Qed.
+(* OverloadedSignature.check_call is no longer pinned: its loop is translated.
+   [gen_is_overload], [gen_step], [gen_after_loop] are regenerated from the source
+   (the `is_overload=` argument, the if-chain on `ret`, the code after the loop);
+   the loop assembled from them is the model's [loop], so a behaviour-preserving
+   edit of check_call re-proves and a behaviour-changing one breaks this lemma. *)
+Fixpoint gen_loop (sigs : list osig) (args : list arg) (anys uanys unions : list rtype) : result :=
+  match sigs with
+  | [] => gen_after_loop anys uanys unions
+  | s :: rest =>
+      match gen_step args anys uanys unions (call_of (gen_is_overload (is_nil rest) anys) s args) with
+      | LContinue args' a u un => gen_loop rest args' a u un
+      | LReturn r => r
+      end
+  end.
+
+Lemma gen_loop_is_model : forall sigs args anys uanys unions,
+  gen_loop sigs args anys uanys unions = loop sigs args anys uanys unions.
+Proof.
+  induction sigs as [|s rest IH]; intros args anys uanys unions.
+  - cbn [gen_loop loop]. unfold gen_after_loop. destruct anys as [|a l]; cbn [is_nil negb]; auto.
+    apply gen_unite_rets_is_model.
+  - cbn [gen_loop loop]. unfold gen_step, call_of, gen_is_overload.
+    destruct (check_params (negb (is_nil rest) || negb (is_nil anys)) (os_params s) args false false None)
+      as [[err ua] new].
+    destruct err; cbn [cr_error cr_any cr_remaining cr_ret].
+    + apply IH.
+    + destruct new as [args'|]; cbn [opt_list is_nil negb]; destruct ua; try apply IH.
+      apply gen_unite_rets_is_model.
+Qed.
 
 (* pyanalyze/signature.py: Signature._check_param_type_compatibility *)
 Lemma pin_check_param_type_compatibility_ok : pin_check_param_type_compatibility = "5c3d369084c1c8982755"%string.
